@@ -32,6 +32,11 @@ def run(rep, tier, rng):
     withnull = mk([2, 1, 3])
     withnull["records"][1]["shape"] = {"code": 0}
     models.append(withnull)
+    # a fourth file whose middle record is of another type with a payload (a Point in a Multipoint file): the typed
+    # reader answers it with a mismatch error after having read only part of the record, and must still find the next
+    foreign = mk([2, 1, 3])
+    foreign["records"][1]["shape"] = {"code": 1, "x": 0x3FF0000000000000, "y": 0x4000000000000000}
+    models.append(foreign)
     alpha = alphabet(n)
     hists = [list(t) for k in range(1, L + 1) for t in itertools.product(alpha, repeat=k)]
     extra = 400 if tier == "thorough" else 60
@@ -45,13 +50,20 @@ def run(rep, tier, rng):
         shp, shx = refesri.encode_shp(m), refesri.encode_shx(m)
         items = [("ok", refesri.denote(r["shape"])) for r in m["records"]]
         for h in hists:
-            ops = h + [("it", -1)]          # every history ends with an iteration, observed too
-            cases.append(C.read_case(-1 if (len(h) % 2 or mi == 2) else 8, shp, shx, ops))
+            # every history ends with an iteration or, every fourth one, with the bulk read (read / read_as), observed too
+            ops = h + ([("readall",)] if (len(cases) % 4 == 3) else [("it", -1)])
+            typed = not (len(h) % 2 or (mi == 2 and len(cases) % 3)) or (mi == 3 and len(cases) % 3 != 1)
+            cases.append(C.read_case(8 if typed else -1, shp, shx, ops))
+            if typed and mi >= 2:
+                # the typed reader on the record of another type: a mismatch error item, then the iteration goes on
+                meta.append(([items[0], ("err", 8, 8, m["records"][1]["shape"]["code"]), items[2]], ops, mi))
+                continue
             meta.append((items, ops, mi))
     rep.cov["rule"] = ("exhaustive histories over {iterate 0/1/2/all items, random access at 0..n, seek 0..n, shape count} up to "
                        "length %d (quick: all of length <= 2, a rotating third of length 3) plus %d longer random ones, each "
                        "followed by a full iteration, on a file of n = 3 records of pairwise different sizes, on one of equal "
-                       "sizes and on one with a null-shape record in the middle, iterator adaptors skip/take included, with index, generic and typed reader alternating; oracle: abstract reader (records, next position); "
+                       "sizes, on one with a null-shape record in the middle and on one with a record of another type in the middle (typed reads "
+                       "answer it with an error and go on), iterator adaptors skip/take included, with index, generic and typed reader alternating; oracle: abstract reader (records, next position); "
                        "non-trivial = distinct case" % (L, extra))
     rep.cov["exhaustive"] = tier == "thorough"
     impl = stages.correspondence(rep, "read", dev, cases, "read(call histories)", vm_sample=60)
@@ -63,7 +75,7 @@ def run(rep, tier, rng):
             nfail += 1
             if nfail == 1:
                 rep.violation({"kind": "oracle", "what": msg, "case_kind": "read", "case": c, "ops": ops,
-                               "file": ["different sizes", "equal sizes", "null record in the middle"][mi]})
+                               "file": ["different sizes", "equal sizes", "null record in the middle", "record of another type in the middle"][mi]})
     rep.sample({"ops": meta[40][1]})
     rep.cov["oracle"] = {"checked": len(cases), "failing": nfail}
     rep.assumptions += ["the complete Reader (shape + attribute row pairs follow the same positions) is exercised by C08's pair "
